@@ -63,6 +63,8 @@ def check(run, tier, seed, replay=None):
             ident = WHAT[name]
             if name == "archive" and mons["archive_inline"] and dc.has_slices(sc):
                 ident = dc.ID_C08M if dc.has_missing_slice(sc) else dc.ID_C08
+            if name == "archive" and ident == WHAT["archive"] and dc.archived_unreported(sc, obs):
+                ident = dc.ID_C08U
             if name == "shared" and dc.has_slices(sc):
                 ident = dc.ID_C08S
             elif name == "shared":
